@@ -150,10 +150,18 @@ func cameras(r *vlib.Run) {
 	r.Section("camera", r.N(2000, 200000), vlib.SectionOpts{}, func(c *vlib.Case) {
 		rng := c.Rng
 		cam := randCamera(rng)
-		if rng.Intn(3) == 0 { // explicit non-default screen axes
+		switch rng.Intn(4) {
+		case 0: // explicit non-default screen axes
 			x := vlib.RandUnit3(rng)
 			y := x.Cross(vlib.RandUnit3(rng)).Normalize()
 			cam = &render3d.Camera{Origin: cam.Origin, ScreenX: x, ScreenY: y, FieldOfView: cam.FieldOfView}
+		case 1: // an oblique frame: unit screen axes 40-140 degrees apart (the fields only ask for unit directions)
+			x := vlib.RandUnit3(rng)
+			yp := x.Cross(vlib.RandUnit3(rng)).Normalize()
+			a := (40 + 100*rng.Float64()) * math.Pi / 180
+			y := x.Scale(math.Cos(a)).Add(yp.Scale(math.Sin(a)))
+			cam = &render3d.Camera{Origin: cam.Origin, ScreenX: x, ScreenY: y, FieldOfView: cam.FieldOfView}
+			c.Count("camera.oblique_frames", 1)
 		}
 		iw, ih := float64(1+rng.Intn(400)), float64(1+rng.Intn(400))
 		cast, uncast := cam.Caster(iw, ih), cam.Uncaster(iw, ih)
